@@ -43,12 +43,12 @@ K_ALLMASK = "dir:all-points-masked:result-shape-ignores-directions"
 C08_INVS = ["WellFormed", "HalfOpen", "DirWithinIso", "DirLengthFree", "EarlyExitSound", "EarlyFirstSame"]
 C09_INVS = {
     "iso": ["PermInvariant", "TranslationInvariant", "OrthoInvariant", "ShiftInvariant", "ScaleCovariant",
-            "MissingIsRemoved", "RepresentationIrrelevant", "PreprocessAfterMarking", "PerFieldSkipping"],
+            "MissingIsRemoved", "RepresentationIrrelevant", "MarkerUnitFree", "PreprocessAfterMarking", "PerFieldSkipping"],
     "dir": ["PermInvariant", "TranslationInvariant", "OrthoInvariant", "DirRowsIndependent", "DirLengthInvariant", "ShiftInvariant",
-            "ScaleCovariant", "MissingIsRemoved", "RepresentationIrrelevant", "PreprocessAfterMarking"],
+            "ScaleCovariant", "MissingIsRemoved", "RepresentationIrrelevant", "MarkerUnitFree", "PreprocessAfterMarking"],
     "gc": ["PermInvariant", "OrthoInvariant", "ShiftInvariant", "ScaleCovariant", "MissingIsRemoved", "RepresentationIrrelevant",
-           "PreprocessAfterMarking", "UnitFree"],
-    "axis": ["AxisIsDirectional", "AxisReversal", "AxisMaskIsMissing"],
+           "MarkerUnitFree", "PreprocessAfterMarking", "UnitFree"],
+    "axis": ["AxisIsDirectional", "AxisReversal", "AxisMaskIsMissing", "AxisNoDataZero"],
     "sub": ["SubsampleAll", "PermInvariant", "PerFieldSkipping", "MissingIsRemoved"],
 }
 
@@ -606,6 +606,9 @@ def c08_forms(ctx, fa, pa):
         else:
             f_, k2 = render(base, kind, as_list=rng.random() < 0.5, spell=rng.choice(MASK_SPELLINGS))
         forms.append((label, f_, dict(k2, **kw)))
+    # the marker classes (values in tiny / huge units with marker 0; values near a big marker)
+    label, f_, k2, vdiv = render_scaled(fa, rng.choice(["unit", "unit", "near"]), rng)
+    forms.append((label, f_, dict(k2, _vdiv=vdiv)))
     return forms
 
 
@@ -637,11 +640,13 @@ def replay_iso_c08(ctx, gs, K, st):
                   "unstructured(%s, euclid) dim=%d differs from the definition in bin %d (%s)" % (est_name(est), dim, bad[2], bad[0]),
                   "iso", st, "unstructured(f, edges, pos, %r, 'e')" % est, _obs(v, c))
         for form, fld, kw in c08_forms(ctx, fa, pa):
+            vdiv = kw.pop("_vdiv", 1.0)
             r = safe_api(ctx, st, "iso", "vario_estimate(%s, missing as %s)" % (est_name(est), form),
                          lambda: call_api(gs, pos_form(ctx, pa), fld, ed, est, **kw))
             if r is None:
                 continue
             _cen, v, c = r
+            v = v / vdiv
             ctx.calls += 1
             bad = compare(exp, v, c, est)
             if bad:
@@ -712,12 +717,14 @@ def replay_dir_c08(ctx, gs, K, st):
             _dir_check(ctx, st, "directional(separate_dirs=True)", "directional(f, edges, pos, unit dirs, tol, bw, True, %r)" % est,
                        full, early, v, c, est, "kernel-separated", True)
         for form, fld, kw in c08_forms(ctx, fa, pa):
+            vdiv = kw.pop("_vdiv", 1.0)
             kw = dict(kw, **dir_kwargs(inp))
             r = safe_api(ctx, st, "dir", "vario_estimate(direction=..., %s, missing as %s)" % (est_name(est), form),
                          lambda: call_api(gs, pos_form(ctx, pa), fld, ed, est, **kw))
             if r is None:
                 continue
             _cen, v, c = r
+            v = v / vdiv
             ctx.calls += 1
             _dir_check(ctx, st, "vario_estimate(direction=..., missing values as %s)" % form,
                        "vario_estimate(pos, field=%s, edges, %r, %s)" % (_show(fld), est_name(est), _showkw(kw)),
@@ -769,11 +776,13 @@ def replay_gc_c08(ctx, gs, K, st):
         ctx.calls += 1
         _gc_check(ctx, st, "unstructured(haversine)", "unstructured(f, edges_rad, latlon, %r, 'h')" % est, _as2d(v), _as2d(c), est, "kernel")
         for form, fld, kw in c08_forms(ctx, fa, pa):
+            vdiv = kw.pop("_vdiv", 1.0)
             r = safe_api(ctx, st, "gc", "vario_estimate(latlon=True, %s, missing as %s)" % (est_name(est), form),
                          lambda: call_api(gs, pos_form(ctx, pa), fld, ed.copy(), est, latlon=True, **kw))
             if r is None:
                 continue
             _cen, v, c = r
+            v = v / vdiv
             ctx.calls += 1
             _gc_check(ctx, st, "vario_estimate(latlon=True, missing values as %s)" % form,
                       "vario_estimate(latlon, field=%s, edges_rad, latlon=True, %r, %s)" % (_show(fld), est_name(est), _showkw(kw)), v, c, est, "api")
@@ -822,6 +831,19 @@ def replay_axis_c08(ctx, gs, K, st):
                   "ma_structured(f2d, mask2d, %r)" % est, _obs(v, None))
         direction = ctx.rng.choice(["xyz"[ax], ax])
         fld = np.ma.array(vals.copy(), mask=mask.copy()) if mask.any() else vals.copy()
+        if ctx.rng.random() < 0.5:  # the same data in another unit, missing cells as exact zeros with no_data=0 / near a big marker
+            label, fsc, kwsc, vd = render_scaled(np.where(missing, np.nan, vals).reshape(1, -1), ctx.rng.choice(["unit", "near"]), ctx.rng)
+            fsc = fsc.reshape(vals.shape)
+            v2 = safe_api(ctx, st, "axis", "vario_estimate_axis(direction=%r, %s, %s)" % (direction, est_name(est), label),
+                          lambda: gs.vario_estimate_axis(fsc, direction, est_name(est), **kwsc) / vd)
+            if v2 is not None:
+                ctx.calls += 1
+                bad = compare(exp, _as2d(v2), None, est)
+                if bad:
+                    _fail(ctx, "axis:api:%s:%s" % (est_name(est), bad[0]),
+                          "vario_estimate_axis(%s, direction=%r), data given as %s, differs from the definition at lag %d"
+                          % (est_name(est), direction, label, bad[2]), "axis", st,
+                          "vario_estimate_axis(%s, %r, %r, %s)" % (_show(fsc), direction, est_name(est), _showkw(kwsc)), _obs(v2, None))
         v = safe_api(ctx, st, "axis", "vario_estimate_axis(direction=%r, %s)" % (direction, est_name(est)),
                      lambda: gs.vario_estimate_axis(fld, direction, est_name(est)))
         if v is None:
@@ -855,6 +877,11 @@ ANGLES2 = {(1, 0): 0.0, (0, 1): math.pi / 2, (1, 1): math.pi / 4, (-1, 1): 3 * m
 ANGLES3 = {(1, 0, 0): (0.0, math.pi / 2), (0, 1, 0): (math.pi / 2, math.pi / 2), (0, 0, 1): (0.0, 0.0),
            (1, 1, 0): (math.pi / 4, math.pi / 2), (1, 0, 1): (0.0, math.pi / 4), (0, 1, 1): (math.pi / 2, math.pi / 4),
            (-1, 1, 0): (3 * math.pi / 4, math.pi / 2), (0, 0, -2): (0.0, math.pi)}
+
+
+def _div(r, vdiv):
+    """(centres, values, counts) with the values divided by the square of the field factor."""
+    return r[0], r[1] / vdiv, r[2]
 
 
 def _check_rel(ctx, st, mode, rel, exp, call, est, kw_desc, tol=1e-12, scale=1, used=None):
@@ -971,6 +998,29 @@ def render(fa, kind, as_list=False, nodata=NODATA, spell="bool"):
     raise AssertionError(kind)
 
 
+UNITS = (("2^-30", 2.0 ** -30), ("1e-9", 1e-9), ("1e-12", 1e-12), ("2^30", 2.0 ** 30))
+BIGMARKER = 1.0e6
+
+
+def render_scaled(fa, which, rng):
+    """Float images of the marker classes of the spec (IsMarker): (label, field, kwargs, divisor of the values).
+    'unit':  kind no-data-0 read in a small / large unit u: exact zeros are the markers, the valid data (z + 7) u
+             are tiny (below any absolute tolerance) or huge; gamma scales with u^2, the counts do not change.
+    'near':  kind no-data-near: marker 1e6 given as m, m + 1, m - 1 (relative 1e-6: still the marker), valid
+             data 1000 (z + 3) above it (relative 1e-3: not the marker); gamma scales with 1000^2."""
+    nanm = np.isnan(fa)
+    nf, n = fa.shape
+    if which == "unit":
+        name, u = rng.choice(UNITS)
+        v = np.where(nanm, 0.0, (fa + 7.0) * u)
+        label, kw, vdiv = "no-data-0:unit=" + name, {"no_data": rng.choice([0, 0.0, np.float64(0.0)])}, u * u
+    else:
+        m_idx, j_idx = np.meshgrid(np.arange(1, nf + 1), np.arange(1, n + 1), indexing="ij")
+        v = np.where(nanm, BIGMARKER + ((m_idx + j_idx) % 3) - 1.0, BIGMARKER + 1000.0 * (fa + 3.0))
+        label, kw, vdiv = "no-data-near", {"no_data": BIGMARKER}, 1.0e6
+    return label, (v if nf > 1 else v[0]), kw, vdiv
+
+
 def missing_forms(ctx, fa, pa):
     """The same data with the missing values expressed in the different accepted ways.
     Returns list of (label, pos, field, kwargs)."""
@@ -1016,7 +1066,7 @@ def replay_points_c09(ctx, gs, K, st, mode):
     if mode != "iso" and any(len(a) > 1 for row in (exp[0] if mode == "dir" else exp) for a in row):
         ctx.boundary_inputs += 1
 
-    def run(rel, pos, fld, kw=None, e=est, expd=None, edges=None, tol=1e-12, std=False, scale=1, idx=None):
+    def run(rel, pos, fld, kw=None, e=est, expd=None, edges=None, tol=1e-12, std=False, scale=1, idx=None, vdiv=1.0):
         k = dict(base_kw)
         k.update(kw or {})
         eg = None if std else np.array(ed if edges is None else edges, dtype=np.float64)  # the object the real code gets
@@ -1024,7 +1074,7 @@ def replay_points_c09(ctx, gs, K, st, mode):
         desc = "vario_estimate(pos=%s, field=%s, bin_edges=%s, estimator=%r, %s)" % (
             np.asarray(pos).tolist() if not isinstance(pos, tuple) else [p.tolist() for p in pos],
             _show(fld), None if eg is None else eg.tolist(), est_name(e), ", ".join("%s=%s" % (a, _show(b)) for a, b in k.items()))
-        _check_rel(ctx, st, mode, rel, exp if expd is None else expd, lambda: call_api(gs, pos, fld, eg, e, ref_edges=eg0, **k), e, desc, tol, scale,
+        _check_rel(ctx, st, mode, rel, exp if expd is None else expd, lambda: _div(call_api(gs, pos, fld, eg, e, ref_edges=eg0, **k), vdiv), e, desc, tol, scale,
                    (np.atleast_2d(np.asarray(pos, dtype=float)), list(range(n)) if idx is None else idx) if mode == "gc" else None)
 
     fld0 = fa if nf > 1 else fa[0]
@@ -1035,6 +1085,11 @@ def replay_points_c09(ctx, gs, K, st, mode):
     run("explicit-falsy-arguments", pa, fld0,
         {"mask": rng.choice([False, np.False_, np.ma.nomask]), "mean": rng.choice([0, 0.0, np.float64(0.0)]),
          "trend": rng.choice([0, 0.0]), "sampling_size": n + rng.choice([0, 2]), "sampling_seed": rng.choice([0, np.int64(0)])})
+    # marker rule (spec: IsMarker): the field scaled by a factor with no_data=0 -- exact zeros stay markers, tiny or
+    # huge valid values stay valid, gamma scales with the square, counts unchanged; values near a big marker
+    for which in ("unit", "unit", "near"):
+        label, f_, kw, vd = render_scaled(fa, which, rng)
+        run("marker-rule:" + label, pa, f_, kw, vdiv=vd)
     # permutation of the points
     pi = list(range(n))
     rng.shuffle(pi)
@@ -1305,10 +1360,10 @@ def replay_axis_c09(ctx, gs, K, st):
     est = rng.choice(["m", "c"])
     missing = mask | np.isnan(vals)
 
-    def axis_rel(rel, fld, direction, kw=None):
+    def axis_rel(rel, fld, direction, kw=None, vdiv=1.0):
         ctx.rel(rel)
         try:
-            v = gs.vario_estimate_axis(fld, direction, est_name(est), **(kw or {}))
+            v = gs.vario_estimate_axis(fld, direction, est_name(est), **(kw or {})) / vdiv
         except Exception as e:  # noqa: BLE001
             _fail(ctx, "rel:%s:axis:exception" % rel, "relation %s: vario_estimate_axis raised %r" % (rel, e), "axis", st,
                   "vario_estimate_axis(%s, %r, %r, %s)" % (_show(fld), direction, est_name(est), kw), {"exception": repr(e)})
@@ -1321,6 +1376,10 @@ def replay_axis_c09(ctx, gs, K, st):
 
     nanf = np.where(missing, np.nan, vals)
     axis_rel("axis:missing-as-nan", nanf.copy(), ax)
+    # marker rule: data in a tiny / huge unit with no_data=0 (exact zeros are the markers), values near a big marker
+    for which in ("unit", "near"):
+        label, f_, kw_, vd = render_scaled(nanf.reshape(1, -1), which, rng)
+        axis_rel("axis:marker-rule:" + label, f_.reshape(nanf.shape), ax, kw_, vdiv=vd)
     axis_rel("axis:missing-as-masked", np.ma.array(np.where(missing, 9.0, vals), mask=missing.copy()), "xyz"[ax])
     axis_rel("axis:missing-as-no_data", np.where(missing, -5.0, vals), ax, {"no_data": -5.0})
     axis_rel("axis:mask+no_data", np.ma.array(np.where(np.isnan(vals), -5.0, vals), mask=mask.copy()), ax, {"no_data": -5.0})
@@ -1345,7 +1404,10 @@ def replay_axis_c09(ctx, gs, K, st):
     n0 = vals.shape[0]
     ambiguous = nd >= 2 and len(set(vals.shape)) == 1 and nd * n0 in (n0 ** nd, n0 ** (nd - 1))
 
-    def iso_rel(rel, call, desc, tol=1e-12, e=None, expd=None):
+    def iso_rel(rel, call, desc, tol=1e-12, e=None, expd=None, vdiv=1.0):
+        if vdiv != 1.0:
+            call0 = call
+            call = lambda: _div(call0(), vdiv)  # noqa: E731
         if ambiguous and rel.startswith("structured-mesh"):
             col = Ctx(ctx.pid, ctx.tier, 0, "tmp")
             _check_rel(col, st, "axis", rel, expiso if expd is None else expd, call, est if e is None else e, desc, tol)
@@ -1361,6 +1423,10 @@ def replay_axis_c09(ctx, gs, K, st):
     pos_s = axes if nd > 1 else (axes[0] if rng.random() < 0.5 else axes)
     iso_rel("structured-mesh", lambda: call_api(gs, pos_s, fldnan.copy(), ed, est, mesh_type="structured"),
             "vario_estimate(axes=%s, field=%s, edges=%s, mesh_type='structured')" % ([a.tolist() for a in axes], _show(fldnan), ed.tolist()))
+    label, fsc, kwsc, vd = render_scaled(fldnan.reshape(1, -1), rng.choice(["unit", "near"]), rng)
+    fsc = fsc.reshape(fldnan.shape)
+    iso_rel("structured-mesh:marker-rule:" + label, lambda: call_api(gs, pos_s, fsc.copy(), ed, est, mesh_type="structured", **kwsc),
+            "vario_estimate(axes=%s, field=%s, edges=%s, mesh_type='structured', %s)" % ([a.tolist() for a in axes], _show(fsc), ed.tolist(), _showkw(kwsc)), vdiv=vd)
     iso_rel("point-list", lambda: call_api(gs, pts, fldnan.reshape(-1).copy(), ed, est),
             "vario_estimate(points=%s, field=%s, edges=%s)" % (pts.tolist(), _show(fldnan.reshape(-1)), ed.tolist()))
     if missing.any() and not missing.all():
